@@ -14,10 +14,20 @@ static SEQ: AtomicU64 = AtomicU64::new(0);
 static EVENTS: Mutex<Vec<(u64, u64, &'static str, u64)>> = Mutex::new(Vec::new());
 static JITTER: AtomicU64 = AtomicU64::new(0);
 
+/// > 0: the next first-use negotiation is slow -- its holder keeps the template mutex for that many milliseconds
+/// (a slow peer, a slow dlopen, a descheduled thread); other threads simply have to wait
+static SLOW_NEGOTIATION_MS: AtomicU64 = AtomicU64::new(0);
+
 fn emit(label: &'static str, key: u64) {
     let tid = TID.with(|t| t.get());
     let seq = SEQ.fetch_add(1, Ordering::SeqCst);
     EVENTS.lock().unwrap().push((seq, tid, label, key));
+    if label == "InterrogateVersion" {
+        let ms = SLOW_NEGOTIATION_MS.swap(0, Ordering::SeqCst);
+        if ms > 0 {
+            std::thread::sleep(std::time::Duration::from_millis(ms));
+        }
+    }
     // perturb the schedule a little (seeded), never while this function holds the event mutex
     let j = JITTER.fetch_add(0x9E3779B97F4A7C15, Ordering::Relaxed);
     if (j >> 60) & 3 == 0 {
@@ -53,6 +63,8 @@ pub fn non_sync_connection_is_sync() -> bool {
 pub fn run(seed: u64, nthreads: usize, plugin: &str) -> Value {
     savefile_abi::verif_hooks::SINK.set(Box::new(emit)).ok();
     JITTER.store(seed.wrapping_mul(0x2545F4914F6CDD1D) | 1, Ordering::Relaxed);
+    // every fourth run: the first negotiation holds the template mutex for a long time
+    SLOW_NEGOTIATION_MS.store(if seed % 4 == 3 { 700 } else { 0 }, Ordering::SeqCst);
     let barrier = Arc::new(Barrier::new(nthreads));
     let results_ok = Arc::new(Mutex::new(true));
     let finished = Arc::new(AtomicU64::new(0));
